@@ -49,7 +49,7 @@ def formatDev (size cb ro : Nat) (fmtBs : Nat) (p : Params) : Outcome Dev := do
   let mp := metaParams size cb ro fmtBs
   let rc ← (match formatRefcounts mp cb ro with
     | some r => .ok r
-    | none => .panic "header.rs:format_qcow2:refblock-index")
+    | none => .err .invalid)   -- the initial meta data exceeds one refcount block
   let info ← Info.new { clusterBits := cb, refcountOrder := ro, size := size, hasBackingName := false } p
   -- `Qcow2Dev::new` refuses images without L1 table (size 0) or refcount table
   if ramL1Len size cb p.bsBits = 0 ∨ mp.rtClusters = 0 then .err .invalid else
